@@ -47,7 +47,8 @@ void check_connectivity(Ctx &ctx, const cfg::Config &c, const std::vector<MNode>
 void prop(DP &dp, const ref::Bytes &sched, Ctx &ctx) {
 	Normal n;
 	NormalOpts o;
-	o.gen.max_boards = 5;
+	o.gen.max_boards = 7;
+	o.max_unknown = 3;
 	o.gen.interface_chance = dp.chance(128) ? 190 : 100;
 	o.deep_tree = true;
 	o.gen.max_items = 1;
